@@ -17,7 +17,7 @@ CHECKS = {
              "ops-table and attribute callbacks by function-pointer propagation, OpenSSL/c-ares callbacks by a model table) no blocking "
              "primitive (poll/epoll_wait/select with a non-zero timeout, sleep family, synchronous resolver calls, ...) is reachable "
              "from any non-blocking API entry when every test of the socket's blocking flag is folded to false; and every descriptor "
-             "is created with its *_NONBLOCK flag and never switched back. All paths, all states, all transports - which no test run can enumerate. (R3) no attribute setter can answer a positive status: the attribute-map walk stops on any non-zero status but fails only on a negative one, so xcm.blocking=false from the map is applied or the call fails. (R4) xcm_set_blocking leaves the stored mode unchanged on every failing exit.",
+             "is created with its *_NONBLOCK flag and never switched back. All paths, all states, all transports - which no test run can enumerate. (R3) no attribute setter can answer a positive status: the attribute-map walk stops on any non-zero status but fails only on a negative one, so xcm.blocking=false from the map is applied or the call fails. (R4) xcm_set_blocking leaves the stored mode unchanged on every failing exit. (R5) every counted loop of the library (33) stores to an operand of its condition on each way round, or sleeps in the kernel: no user-space busy-wait inside a call that must not wait.",
         note=TRUSTED + " A libc/OpenSSL/c-ares function that is not in the blocking table is assumed not to wait for an external event.",
         technique="call-graph reachability with guard folding (static analysis over clang AST/CFG)",
         design="3/C05"),
@@ -31,7 +31,7 @@ CHECKS["C10"] = dict(
          "the attribute types and tests length, syntax, existence, node kind, writability and type, each with its documented errno, before the "
          "setter runs; (R4) fixed-size setters read at most sizeof(type); (R5) a setter that rejects has not modified the socket; (R6) every "
          "array access of the name parser is in bounds (record invariant num_comps <= 64 checked at every store). Not decided: attribute "
-         "values, behaviour of getters in every connection state (nullness of OpenSSL objects). (R1 also) internal buffers on the transports' getter paths are armed (defect F20 repaired); (R10) the log formatter that records a rejected attribute name is bounded for any name length, sizes computed as unsigned differences proved not to wrap. (R12) every write of the attribute setters into their own buffers is bounded.",
+         "values, behaviour of getters in every connection state (nullness of OpenSSL objects). (R1 also) internal buffers on the transports' getter paths are armed (defect F20 repaired); (R10) the log formatter that records a rejected attribute name is bounded for any name length, sizes computed as unsigned differences proved not to wrap. (R12) every write of the attribute setters into their own buffers is bounded. (R13) on the query paths of the attribute tree the path-component accessor is called within the range it asserts, and an index computed as an unsigned difference cannot wrap (decided with the facts in front of the subtraction).",
     note=TRUSTED + " Pointer parameters of different names are assumed not to alias; the sizes written by libc sinks are taken from their man pages.",
     technique="bounded-write dataflow (difference constraints) + guard-ordering/dominance checks + path exploration",
     design="3/C10")
@@ -42,7 +42,7 @@ CHECKS["C12"] = dict(
          "(R3) every write is within its buffer and the only thing a public entry demands from its caller is the documented (buffer, capacity) "
          "contract (bounded-write analysis; the DNS-name length lemma is derived from xcm_dns_is_valid_name's body); (R4) each of the eight "
          "transport names is validated by the parser for that name; (R5) UX/UXF makers reject over-long names first. Not decided: that make and "
-         "parse are inverses for all inputs (a relation between two computations), inet_pton/inet_ntop. (R3 also) index stores through the (buffer, capacity) parameters; (R7) the white-space predicate in front of every parser covers all six C white-space characters. (R8) the UX/UXF parser enforces the maker's name limit itself (not only the caller's capacity) and the DNS name predicate's limit equals the one the public header documents and sizes struct xcm_addr_host.name for.",
+         "parse are inverses for all inputs (a relation between two computations), inet_pton/inet_ntop. (R3 also) index stores through the (buffer, capacity) parameters; (R7) the white-space predicate in front of every parser covers all six C white-space characters. (R8) the UX/UXF parser enforces the maker's name limit itself (not only the caller's capacity) and the DNS name predicate's limit equals the one the public header documents and sizes struct xcm_addr_host.name for. (R9) every integer conversion of the makers' format strings holds every value of its argument's type (a narrowing %hd of the port breaks make/parse for half the range).",
     note=TRUSTED + " A parse cursor s+k is assumed to stay inside its string when string lengths are compared (strlen(s+k) <= strlen(s)).",
     technique="bounded-write/value-range dataflow + idiom checks decided from path facts + table agreement",
     design="3/C12")
@@ -63,7 +63,7 @@ CHECKS["C03"] = dict(
          "test sees the errno of the failing call (logging is derived errno-transparent from its save/restore bracket on every run); the "
          "length validated is the length sent (no unguarded narrowing); UX send is one send(2) with MSG_NOSIGNAL|MSG_EOR; and blocking "
          "xcm_send does not report failure for an accepted message because its wait failed (known finding K3). and never offers the caller's buffer to the transport again after it was accepted; Not decided: exactly-once "
-         "delivery (needs both endpoints and the schedule). (R8) every failing path of btcp_send/btls_send with errno possibly other than EAGAIN has put the connection into a terminal state (the framing layer keeps the buffered frame on such a failure).",
+         "delivery (needs both endpoints and the schedule). (R8) every failing path of btcp_send/btls_send with errno possibly other than EAGAIN has put the connection into a terminal state (the framing layer keeps the buffered frame on such a failure). (R9) a receive op of a framing transport that reads from the layer below has attempted the flush of the accepted frame on that path (xcm.h: buffered data is re-attempted by finish, send and receive).",
     note=TRUSTED + " send(2) on SOCK_SEQPACKET is all-or-nothing; mbuf_set copies into XCM-owned storage.",
     technique="path-sensitive typestate exploration with inlining, errno-source tracking, value-range dataflow",
     design="3/C03")
@@ -87,7 +87,7 @@ CHECKS["C07"] = dict(
          "point with 32-bit wrap-around) and must equal [1, max_msg], which is what the sender's guard establishes at acceptance; every "
          "lower-layer read goes to the mbuf's write cursor with exactly the spare capacity ensured before and asks for exactly the missing "
          "part of the header/payload; the sticky flag is only ever set and is tested before the sub-socket is used; a TLS protocol error drains OpenSSL's per-thread error queue on every "
-         "path. Not decided: crashes inside OpenSSL/c-ares, pointer arithmetic outside the modelled sinks. (R7) the peer certificate's fields are formatted within their buffers: hash_description call sites proved for 3n+1 bytes, log_tls.c and cert.c analysed with the bounded-write engine.",
+         "path. Not decided: crashes inside OpenSSL/c-ares, pointer arithmetic outside the modelled sinks. (R7) the peer certificate's fields are formatted within their buffers: hash_description call sites proved for 3n+1 bytes, log_tls.c and cert.c analysed with the bounded-write engine. (R3 also) the accepted set is folded through the real length decoder, conversions on its return path included.",
     note=TRUSTED + " The final implication from these premises to 'no out-of-bounds write for any byte stream' (payload_len + 4 <= MBUF_WIRE_MAX, "
          "buffered <= announced) is argued in DESIGN.md section 3/C07, not mechanised.",
     technique="path-sensitive typestate exploration with inlining + exact predicate folding + bounded-write dataflow",
@@ -100,7 +100,7 @@ CHECKS["C01"] = dict(
          "buffer on every path, reads ask for exactly the missing part and a short read is never success; nothing larger than capacity is "
          "returned; the header codec of writer and readers agrees; the blocking message loop hands a message over exactly once and the "
          "byte-stream loop adds only non-negative results; UTLS uses its single active leg; UX is SEQPACKET with MSG_EOR/MSG_TRUNC. "
-         "Not decided: equality of the two endpoints' message sequences under all schedules (a relation between run-time histories). Also (R11) send/receive/finish of the framework are followed by the socket's update on every path, so a partly written frame is flushed when xcm_fd() fires; (R12) a byte-stream send failure other than EAGAIN leaves the connection terminal, so a message whose send was reported as failed is never delivered later. (R13) a receive is not held back by the socket's own refused output (the flush in front of a read gives way on EAGAIN).",
+         "Not decided: equality of the two endpoints' message sequences under all schedules (a relation between run-time histories). Also (R11) send/receive/finish of the framework are followed by the socket's update on every path, so a partly written frame is flushed when xcm_fd() fires; (R12) a byte-stream send failure other than EAGAIN leaves the connection terminal, so a message whose send was reported as failed is never delivered later. (R13) a receive is not held back by the socket's own refused output (the flush in front of a read gives way on EAGAIN). (R14) = C03.R9.",
     note=TRUSTED + " Kernel SEQPACKET semantics and OpenSSL below btls are trusted.",
     technique="path-sensitive typestate exploration with inlining + reaching-definition and value-range dataflow + structural agreement",
     design="3/C01")
@@ -181,7 +181,7 @@ CHECKS["C14"] = dict(
          "(R6) nothing reachable from ctl_process (function pointers resolved) is an attribute setter, a transport data/lifecycle op or a store to "
          "connection state, and ctl_process is errno-transparent (derived), with a positive control; (R7) close passes owner=true which reaches "
          "unlink. (R3 also) the attribute name is client data: every tag-asserting accessor of the attribute tree reachable from ctl_process is called only under the matching tag test. Not decided: equality of replies with in-process values (the 512-byte value field makes large attributes unrepresentable by "
-         "design - they are left out), concurrency of sessions at run time. (R9) ut_is_readable, folded exactly over poll()'s result and all event-bit combinations, is true iff one descriptor is ready with POLLIN: a reset or hung-up session is read and thereby removed.",
+         "design - they are left out), concurrency of sessions at run time. (R9) ut_is_readable, folded exactly over poll()'s result and all event-bit combinations, is true iff one descriptor is ready with POLLIN: a reset or hung-up session is read and thereby removed. (R10) the buffer given to unlink() at close is filled by nothing that reads getpid()/getenv() (direct calls).",
     note=TRUSTED + " Two table entries of R2 rest on premises re-checked on every run (element copy into the session table; no writer of num_clients reachable from process_client).",
     technique="typestate exploration + bounded-write dataflow with record invariants + enum/table agreement + call-graph reachability",
     design="3/C14")
@@ -200,7 +200,7 @@ CHECKS["C08"] = dict(
          "unchecked to a function that asserts it valid (known findings K2: two sites); (R8) the UXF path is recorded only after a successful bind and unlinked "
          "by the owner's close; (R9) every object a function obtains from a creator in a 48-entry creator/releaser table is released, stored, returned or handed "
          "over on every path; (R10) no data-path op is reachable on a socket between init and connect/server/accept (known finding K6). (R11) teardown loops over a counted collection run until it is empty (no index advancing against a count the body decrements). Not decided: equality of "
-         "the heap and descriptor table before/after (R3/R9 are coverage and per-function ownership, not a leak proof); behaviour of a forked child at run time. (R12) the always-readable descriptor is shared by at most 100 epoll instances (kernel path limit for nested epoll; beyond it EPOLL_CTL_ADD fails and K2's assertion aborts). (R8 also) the UXF path is on record on every failure exit after bind; (R13) EPOLL_CTL_DEL tolerates exactly EBADF/ENOENT/EPERM.",
+         "the heap and descriptor table before/after (R3/R9 are coverage and per-function ownership, not a leak proof); behaviour of a forked child at run time. (R12) the always-readable descriptor is shared by at most 100 epoll instances (kernel path limit for nested epoll; beyond it EPOLL_CTL_ADD fails and K2's assertion aborts). (R8 also) the UXF path is on record on every failure exit after bind; (R13) EPOLL_CTL_DEL tolerates exactly EBADF/ENOENT/EPERM. (R14) a function that frees a record it was building has released every field that already owns something on that path (field-ownership typestate, creators from the ownership table, ares_init_options as a field out-creator); (R9 also) out-parameter creators are derived through helpers that pass their own out-parameters on.",
     note=TRUSTED + " The kernel drops a descriptor's epoll registrations when it is closed; registration tables (xpoll) keep descriptor numbers without owning them.",
     technique="typestate abstract interpretation with inlining and parameter binding + ownership dataflow + context-sensitive call-graph reachability",
     design="3/C08")
@@ -219,7 +219,7 @@ CHECKS["C09"] = dict(
          "enable_hostname_validation is consistent with one of the six documented invalid combinations, refusals say EINVAL, and finalize precedes the "
          "context lookup in connect, server and accept; (R7) load_ssl_ctx installs trusted CAs/CRLs iff given and allows partial chains only without CRLs; "
          "hostname flags NO_WILDCARDS|ALWAYS_CHECK_SUBJECT. (R5) every policy field is inherited unconditionally (a copy may depend on tests of the same field only); (R8) names are appended to the socket's peer-name list only where the list was absent: explicit tls.peer_names are the whole set. Not decided: the outcome matrix against generated certificates (that is the behaviour), "
-         "OpenSSL's chain building, extended key usage checks (inside OpenSSL). (R9) every context lookup passes the four credential items of the socket whose ssl_ctx receives the result; (R10) each default credential file has its own default and per-namespace template. (R8 also) a configured set of peer names is never empty.",
+         "OpenSSL's chain building, extended key usage checks (inside OpenSSL). (R9) every context lookup passes the four credential items of the socket whose ssl_ctx receives the result; (R10) each default credential file has its own default and per-namespace template. (R8 also) a configured set of peer names is never empty. (R11) every element store of the string-list container is followed by a store of its count (tls.peer_names is inherited as a clone); (R12) = C18.R12.",
     note=TRUSTED + " Numeric values of the OpenSSL flag macros are taken from its stable ABI.",
     technique="path exploration + exact folding of the policy function over all inputs + control dependence / must-pass + field coverage + path-fact analysis",
     design="3/C09")
@@ -234,7 +234,7 @@ CHECKS["C18"] = dict(
          "network namespace keep nothing in static storage; (R6) the by-file and by-value setter of each credential write the same slot through a helper that "
          "releases the previous content; (R7) every edge of ctx_store_get_ctx that gives up assigns EPROTO on all its paths to the exit or fails through a "
          "callee all of whose failing exits carry EPROTO (errno facts), else every caller must set it. Not decided: that later connections see replaced files "
-         "(kernel and timing), that established connections are unaffected (OpenSSL object lifetime); thread-safety of the cache is C15's. (R8) the namespace-name lookup keeps no state between calls; (R9) context items and result belong to one socket; (R10) default/per-namespace file templates agree; (R11) failed loads and handshakes leave the OpenSSL error queue empty.",
+         "(kernel and timing), that established connections are unaffected (OpenSSL object lifetime); thread-safety of the cache is C15's. (R8) the namespace-name lookup keeps no state between calls; (R9) context items and result belong to one socket; (R10) default/per-namespace file templates agree; (R11) failed loads and handshakes leave the OpenSSL error queue empty. (R12) the file loader ends its loop on fread's short count or on read(2) returning 0 only.",
     note=TRUSTED,
     technique="path exploration (get/put typestate, ordering typestate) + argument coverage + control dependence / must-pass + errno facts",
     design="3/C18")
